@@ -320,6 +320,7 @@ package css
 //@   ensures[F,C08] @eof-closed: result == ErrorGrammar && p.err == "" ==> len(p.state) == 1
 //@   loop * decreases 2*(len(p.l.r.buf) - p.l.r.pos) + ite(first, 1, 0)
 //@ func Parser.parseDeclaration
+//@   loop * candidate 0 <= offset && offset <= p.l.r.pos
 //@   loop * candidate len(p.state) == old(len(p.state))
 //@   loop * candidate p.prevEnd == old(p.prevEnd)
 //@   loop * candidate forall(i, 0, len(p.state), p.state[i] == old(p.state[i]))
